@@ -8,13 +8,14 @@ visible projection of some run of `Martian.Shutdown.step` from `init`, else `rej
 Only genuine model steps are ever applied (`Shutdown.step`), so acceptance is sound by construction:
 an accepted trace IS a run of the model. Invisible steps are inserted as follows
 * optional, branching (a set of candidate states is kept): `closeChan` after `call`;
-  `add;checkClosing` of a spawned handler; `decide` of a handler behind its response modifier;
+  `spawn;serveCheck` of the connection `Serve` holds; `add;checkClosing` of a spawned handler;
+  `decide` of a handler behind its response modifier;
 * on demand, immediately before the visible event that needs them: `serveCheck`, `gotReq`,
   `closingSeen`, `decide`, `closeChan`, `lock`, `waitZero`; immediately after: `finish` (after the
-  connection close), `spawn;serveCheck` (after `raddr:k`, the `RemoteAddr` evaluation that `Serve`
-  performs between `Accept` and `go handleLoop`).
-Events that are observations rather than steps (`raddr`, `rd`, `obs`, `resp`, `eof`) filter the
-candidates by a predicate on the state.
+  connection close).
+Events that are observations rather than steps (`raddr` — the `RemoteAddr` evaluation `Serve` performs
+between `Accept` and `go handleLoop` —, `rd`, `obs`, `resp`, `eof`) filter the candidates by a
+predicate on the state.
 -/
 namespace Martian.Drv.C07
 open Martian Martian.Shutdown
@@ -40,6 +41,9 @@ def tryStep (s : Sys) (l : Label) : Sys := (step s l).getD s
 
 def optionalLabels (s : Sys) : List (List Label) :=
   (if s.cpc = .called then [[Label.closeChan]] else []) ++
+  (match s.acc with
+   | .holding k => [[Label.h k .spawn, Label.serveCheck]]
+   | _ => []) ++
   (List.range s.hs.length).flatMap fun k =>
     match s.hs[k]? with
     | some h =>
@@ -80,7 +84,8 @@ def applyEv (env : Env) (s : Sys) (ev : List String) : Option Sys :=
   | ["raddr", k] =>
     match k.toNat? with
     | some k =>
-      if s.acc = .holding k ∧ pcOf s k = some .accepted then runAll s [.h k .spawn, .serveCheck] else none
+      -- `Serve` evaluates it between `Accept` and the `go` statement (if it still does so at all)
+      if s.acc = .holding k ∧ pcOf s k = some .accepted then some s else none
     | none => none
   | ["rd", k] =>
     match k.toNat? with
